@@ -99,7 +99,7 @@ def write_ndjson(path, items):
 
 
 def witnesses(out):
-    return set(re.findall(r'<<"WITNESS", "([A-Za-z0-9\-]+)">>', out))
+    return set(re.findall(r'<<"WITNESS", "([^"]+)">>', out))
 
 
 def mc(d, module, name, constants, invariants=(), properties=(), constraint=None, need=(), workers=4, timeout=900):
@@ -115,7 +115,28 @@ def mc(d, module, name, constants, invariants=(), properties=(), constraint=None
             "checked": list(invariants) + list(properties)}
 
 
-def gen_cases(d, module, seed, tier, out_path, timeout=900):
+class Bg:
+    """Runs fn in a thread; .get() re-raises its exception."""
+
+    def __init__(self, fn):
+        self.val, self.err = None, None
+
+        def run():
+            try:
+                self.val = fn()
+            except Exception as e:  # noqa
+                self.err = e
+        self.th = threading.Thread(target=run)
+        self.th.start()
+
+    def get(self):
+        self.th.join()
+        if self.err:
+            raise self.err
+        return self.val
+
+
+def gen_cases(d, module, seed, tier, out_path, timeout=1800):
     """Runs a Gen_*.tla module (two behaviour steps: build the table, check the obligations over it and write it)."""
     cfg = os.path.join(d, module + ".cfg")
     vk.write_cfg(cfg, "Spec", dict(Seed=int(seed), Tier=tier, OutFile=out_path))
@@ -182,19 +203,24 @@ def part_heights(tier, seed, workdir, binary, only=None):
     res = {"mc": {}}
     try:
         if only is None:
-            w = 4 if tier == "quick" else 6
-            res["mc"]["C17:HeightsOrder"] = mc(d, "MC_HeightsOrder", "C17:HeightsOrder", dict(W=w), invariants=["Inv"], properties=["SuccIncreases"],
-                                               need=["lt-by-revision", "lt-by-height", "equal", "gt-by-revision", "gt-by-height", "rollover"])
-            res["mc"]["C17:HeightsElapsed"] = mc(d, "MC_HeightsElapsed", "C17:HeightsElapsed", dict(W=w), invariants=["Inv", "MonotonePairs"],
-                                                 properties=["StaysElapsed"],
-                                                 need=["elapsed-by-height", "elapsed-by-timestamp", "not-elapsed", "zero-timeout",
-                                                       "zero-height-only", "zero-timestamp-only"])
+            w = 3 if tier == "quick" else 6
+            wk = 2 if tier == "quick" else 4
+            bg = [Bg(lambda: ("C17:HeightsOrder", mc(d, "MC_HeightsOrder", "C17:HeightsOrder", dict(W=w), invariants=["Inv"], properties=["SuccIncreases"], workers=wk, timeout=3000,
+                                                     need=["lt-by-revision", "lt-by-height", "equal", "gt-by-revision", "gt-by-height", "rollover"]))),
+                  Bg(lambda: ("C17:HeightsElapsed", mc(d, "MC_HeightsElapsed", "C17:HeightsElapsed", dict(W=w), invariants=["Inv", "MonotonePairs"],
+                                                       properties=["StaysElapsed"], workers=wk, timeout=3000,
+                                                       need=["elapsed-by-height", "elapsed-by-timestamp", "not-elapsed", "zero-timeout",
+                                                             "zero-height-only", "zero-timestamp-only"])))]
             cases, counts = gen_cases(d, "Gen_Heights", seed, tier, os.path.join(workdir, "heights_cases.ndjson"))
             res["generated"] = counts
         else:
             cases = only
-        lines = drive_cases(binary, cases, workdir, "heights", nshards=2 if tier == "quick" else 6)
-        fails = validate(d, "Trace_Heights", lines, workdir, "heights", nshards=4 if tier == "quick" else 8)
+        lines = drive_cases(binary, cases, workdir, "heights", nshards=1 if tier == "quick" else 6)
+        fails = validate(d, "Trace_Heights", lines, workdir, "heights", nshards=2 if tier == "quick" else 8)
+        if only is None:
+            for b in bg:
+                k, v = b.get()
+                res["mc"][k] = v
     finally:
         shutil.rmtree(d, ignore_errors=True)
     cov = collections.Counter()
@@ -226,14 +252,19 @@ def part_delay(tier, seed, workdir, binary, only=None):
     res = {"mc": {}}
     try:
         if only is None:
-            res["mc"]["C19:Delay"] = mc(d, "MC_Delay", "C19:Delay", dict(W=10 if tier == "quick" else 28), invariants=["Lemmas"], properties=["Monotone"],
-                                        need=["exact-division", "remainder-one", "remainder-max", "p-zero", "td-zero", "p-greater-than-td"])
+            bg = [Bg(lambda: ("C19:Delay", mc(d, "MC_Delay", "C19:Delay", dict(W=10 if tier == "quick" else 28), invariants=["Lemmas"], properties=["Monotone"],
+                                              workers=2 if tier == "quick" else 4, timeout=3000,
+                                              need=["exact-division", "remainder-one", "remainder-max", "p-zero", "td-zero", "p-greater-than-td"])))]
             cases, counts = gen_cases(d, "Gen_Delay", seed, tier, os.path.join(workdir, "delay_cases.ndjson"))
             res["generated"] = counts
         else:
             cases = only
-        lines = drive_cases(binary, cases, workdir, "delay", nshards=2 if tier == "quick" else 6)
-        fails = validate(d, "Trace_Delay", lines, workdir, "delay", nshards=4 if tier == "quick" else 8)
+        lines = drive_cases(binary, cases, workdir, "delay", nshards=1 if tier == "quick" else 6)
+        fails = validate(d, "Trace_Delay", lines, workdir, "delay", nshards=2 if tier == "quick" else 8)
+        if only is None:
+            for b in bg:
+                k, v = b.get()
+                res["mc"][k] = v
     finally:
         shutil.rmtree(d, ignore_errors=True)
     cov = collections.Counter()
@@ -279,18 +310,22 @@ def part_delayhist(tier, seed, workdir, binary, only=None):
     res = {"mc": {}}
     try:
         if only is None:
-            for td, p in HIST_CONFIGS[tier]:
-                need = []
-                if td > 0:
-                    need += ["accepted-at-exact-time", "rejected-one-ns-early"]
-                if td > 0 and p > 0:
-                    need += ["accepted-at-exact-height"] + (["rejected-one-block-early"] if (td + p - 1) // p > 1 else [])
-                res["mc"]["C19:DelayHist(%d,%d)" % (td, p)] = mc(d, "MC_DelayHist", "C19:DelayHist_%d_%d" % (td, p), dict(TD=td, P=p),
-                                                                properties=["OnlyAfterBothDelays"], constraint="Bound", need=need)
+            def mc_all():
+                out = {}
+                for td, p in HIST_CONFIGS[tier]:
+                    need = []
+                    if td > 0:
+                        need += ["accepted-at-exact-time", "rejected-one-ns-early"]
+                    if td > 0 and p > 0:
+                        need += ["accepted-at-exact-height"] + (["rejected-one-block-early"] if (td + p - 1) // p > 1 else [])
+                    out["C19:DelayHist(%d,%d)" % (td, p)] = mc(d, "MC_DelayHist", "C19:DelayHist_%d_%d" % (td, p), dict(TD=td, P=p),
+                                                              properties=["OnlyAfterBothDelays"], constraint="Bound", need=need, workers=2, timeout=3000)
+                return out
+            bg = Bg(mc_all)
             scheds = gen_hist(d, tier, seed, workdir)
         else:
             scheds = only
-        lines = drive_cases(binary, scheds, workdir, "delayhist", nshards=3 if tier == "quick" else 6, test="TestDelayHist", in_env="VERIF_SCHED")
+        lines = drive_cases(binary, scheds, workdir, "delayhist", nshards=1 if tier == "quick" else 6, test="TestDelayHist", in_env="VERIF_SCHED")
         groups = collections.defaultdict(list)
         for ln in lines:
             groups[(ln["td"], ln["p"])].append(ln)
@@ -298,6 +333,8 @@ def part_delayhist(tier, seed, workdir, binary, only=None):
         for (td, p), ls in sorted(groups.items()):
             fails += validate(d, "Trace_DelayHist", ls, workdir, "delayhist_%d_%d" % (td, p), constants=dict(TD=td, P=p),
                               nshards=1 if tier == "quick" else 3, keep_together="tr")
+        if only is None:
+            res["mc"].update(bg.get())
     finally:
         shutil.rmtree(d, ignore_errors=True)
     cov = collections.Counter()
@@ -330,15 +367,17 @@ def part_commit(tier, seed, workdir, binary, only=None):
 
             def one(kind):
                 return kind, mc(d, "MC_Commitments", "C07:Commitments_" + kind, dict(KIND=kind, DEEP=deep, HLEN=2, WLEN=2),
-                                invariants=["Injective", "FixedLength"], need=need[kind], workers=3, timeout=3000)
-            for kind, r in vk.pmap(one, ["v1", "payload", "v2", "ack"], 2 if tier == "quick" else 4):
-                res["mc"]["C07:Commitments(%s)" % kind] = r
+                                invariants=["Injective", "FixedLength"], need=need[kind], workers=2 if tier == "quick" else 4, timeout=3000)
+            bg = Bg(lambda: vk.pmap(one, ["v1", "payload", "v2", "ack"], 2 if tier == "quick" else 4))
             cases, counts = gen_cases(d, "Gen_Commitments", seed, tier, os.path.join(workdir, "commit_cases.ndjson"))
             res["generated"] = counts
         else:
             cases = only
-        lines = drive_cases(binary, cases, workdir, "commit", nshards=2 if tier == "quick" else 4)
-        fails = validate(d, "Trace_Commit", lines, workdir, "commit", nshards=2 if tier == "quick" else 4)
+        lines = drive_cases(binary, cases, workdir, "commit", nshards=1 if tier == "quick" else 4)
+        fails = validate(d, "Trace_Commit", lines, workdir, "commit", nshards=1 if tier == "quick" else 4)
+        if only is None:
+            for kind, r in bg.get():
+                res["mc"]["C07:Commitments(%s)" % kind] = r
     finally:
         shutil.rmtree(d, ignore_errors=True)
     cov = collections.Counter()
@@ -350,6 +389,86 @@ def part_commit(tier, seed, workdir, binary, only=None):
     res.update({"lines": lines, "fails": fails, "coverage": cov, "sigs": {"C07": len(sig)}, "cases": {c["id"]: c for c in cases}})
     return res
 
+
+# ------------------------------------------------------------------------------------------ part: identifiers (C15)
+
+def part_ident(tier, seed, workdir, binary, only=None):
+    d = vk.scratch_spec(SPEC_DIR)
+    res = {"mc": {}}
+    try:
+        if only is None:
+            bg = Bg(lambda: mc(d, "MC_Identifiers", "C15:Identifiers",
+                               dict(W=12, MD=2, L=4 if tier == "quick" else 5, ALPHA={"a", "1", "0", "-", "_", "/"}),
+                               invariants=["Inv", "Unique"], timeout=3000, workers=3 if tier == "quick" else 4,
+                               need=["accepted", "rejected-overflow", "rejected-too-many-digits", "leading-zero", "not-a-type",
+                                     "type-ending-in-number"]))
+            cases, counts = gen_cases(d, "Gen_Identifiers", seed, tier, os.path.join(workdir, "ident_cases.ndjson"))
+            res["generated"] = counts
+        else:
+            cases = only
+        lines = drive_cases(binary, cases, workdir, "ident", nshards=1 if tier == "quick" else 4)
+        fails = validate(d, "Trace_Ident", lines, workdir, "ident", nshards=2 if tier == "quick" else 8)
+        if only is None:
+            res["mc"]["C15:Identifiers"] = bg.get()
+    finally:
+        shutil.rmtree(d, ignore_errors=True)
+    cov = collections.Counter()
+    sig = set()
+    for ln in lines:
+        o = ln.get("out") or {}
+        if ln["fn"] == "ClientRT":
+            cov["ident:ClientRT:%s" % ("registrable" if o.get("reg") else "not-registrable")] += 1
+        else:
+            cov["ident:%s:%s" % (ln["fn"], "accepted" if o.get("pok") else "rejected")] += 1
+        if ln["res"] != "ok":
+            cov["ident:%s:%s" % (ln["fn"], ln["res"])] += 1
+        sig.add((ln["fn"], json.dumps(ln["in"], sort_keys=True)))
+    res.update({"lines": lines, "fails": fails, "coverage": cov, "sigs": {"C15": len(sig)}, "cases": {c["id"]: c for c in cases}})
+    return res
+
+
+def part_identhist(tier, seed, workdir, binary, only=None):
+    d = vk.scratch_spec(SPEC_DIR)
+    res = {"mc": {}}
+    try:
+        if only is None:
+            bg = Bg(lambda: mc(d, "MC_IdentHist", "C15:IdentHist", dict(MaxIssued=3 if tier == "quick" else 5), invariants=["Inv"],
+                               properties=["FailedAttemptIssuesNothing", "CountersNeverDecrease"], constraint="Bound", workers=2, timeout=3000,
+                               need=["CreateClient:ok", "CreateClient:err", "ConnInit:ok", "ConnInit:err", "ChanInit:ok", "ChanInit:err",
+                                     "two-client-types"]))
+            n = 10 if tier == "quick" else 150
+            depth = 14 if tier == "quick" else 24
+            outdir = os.path.join(workdir, "identhist_sched")
+            os.makedirs(outdir, exist_ok=True)
+            cfg = os.path.join(d, "Sched_IdentHist.cfg")
+            vk.write_cfg(cfg, "Spec", dict(Depth=depth, OutDir=outdir))
+            vk.tlc_simulate(d, "Sched_IdentHist", cfg, n, depth + 1, seed * 17 + 3, workers=1)
+            scheds = []
+            for i, f in enumerate(sorted(glob.glob(os.path.join(outdir, "*.json")))[:n]):
+                s = json.load(open(f))
+                s["id"] = "IH-%d-%d" % (seed, i)
+                scheds.append(s)
+            if len(scheds) < 2:
+                raise vk.Infra("identifier history generation produced only %d schedules" % len(scheds))
+        else:
+            scheds = only
+        lines = drive_cases(binary, scheds, workdir, "identhist", nshards=1 if tier == "quick" else 6, test="TestIdentHist", in_env="VERIF_SCHED")
+        fails = validate(d, "Trace_IdentHist", lines, workdir, "identhist", nshards=1 if tier == "quick" else 6, keep_together="tr")
+        if only is None:
+            res["mc"]["C15:IdentHist"] = bg.get()
+    finally:
+        shutil.rmtree(d, ignore_errors=True)
+    cov = collections.Counter()
+    sig = set()
+    for ln in lines:
+        a = ln["a"]
+        if a["a"] == "Init":
+            continue
+        cov["identhist:%s:%s:%s" % (a["a"], a["kind"], ln["res"])] += 1
+        sig.add((a["a"], a["kind"], ln["res"], ln["issued"]))
+    res.update({"lines": lines, "fails": fails, "coverage": cov, "sigs": {"C15": len(sig)}, "cases": {s["id"]: s for s in scheds}})
+    return res
+
 # ------------------------------------------------------------------------------------------ BigNat lemma (shared by all parts)
 
 def part_bignat(tier, seed, workdir, binary, only=None):
@@ -358,9 +477,10 @@ def part_bignat(tier, seed, workdir, binary, only=None):
     d = vk.scratch_spec(SPEC_DIR)
     res = {"mc": {}}
     try:
-        n = 20 if tier == "quick" else 90
-        for b, scale in ((4, 1), (10, 1), (32768, 2047 if tier == "quick" else 509)):
-            res["mc"]["BigNat(B=%d)" % b] = mc(d, "MC_BigNat", "BigNat_%d" % b, dict(B=b, N=n, SCALE=scale), invariants=["Laws"])
+        n = 14 if tier == "quick" else 90
+        for b, scale in ((4, 1), (10, 1), (32768, 3001 if tier == "quick" else 509)):
+            res["mc"]["BigNat(B=%d)" % b] = mc(d, "MC_BigNat", "BigNat_%d" % b, dict(B=b, N=n, SCALE=scale), invariants=["Laws"],
+                                               workers=2 if tier == "quick" else 4, timeout=3000)
     finally:
         shutil.rmtree(d, ignore_errors=True)
     res.update({"lines": [], "fails": [], "coverage": collections.Counter(), "sigs": {}, "cases": {}})
@@ -373,9 +493,15 @@ PARTS = collections.OrderedDict([
     ("delay", (part_delay, "C19")),
     ("delayhist", (part_delayhist, "C19")),
     ("commit", (part_commit, "C07")),
+    ("ident", (part_ident, "C15")),
+    ("identhist", (part_identhist, "C15")),
 ])
 
 FLOORS = {
+    "C15": ["ident:ClientRT:registrable", "ident:ClientRT:not-registrable", "ident:ClientParse:accepted", "ident:ClientParse:rejected",
+            "ident:SeqRT:accepted", "ident:SeqParse:accepted", "ident:SeqParse:rejected",
+            "identhist:CreateClient:tm:ok", "identhist:CreateClient:solo:ok", "identhist:CreateClient:expired:err", "identhist:ConnInit:ok:ok",
+            "identhist:ConnInit:noclient:err", "identhist:ChanInit:ok:ok", "identhist:ChanInit:appreject:err"],
     "C07": ["commit:CommitV1:ok", "commit:CommitV2:ok", "commit:AckV1:ok", "commit:AckV2:ok"],
     "C17": ["heights:HCmp:-1", "heights:HCmp:0", "heights:HCmp:1", "heights:HFmt:ok", "heights:Elapsed:elapsed", "heights:Elapsed:not-elapsed"],
     "C19": ["delay:BlockDelay:exact-division", "delay:BlockDelay:with-remainder", "delay:BlockDelay:p-zero", "delay:BlockDelay:td-above-2^53",
@@ -387,6 +513,8 @@ FLOORS = {
 def part_of_trace(tr):
     if tr.startswith("DH-"):
         return "delayhist"
+    if tr.startswith("IH-"):
+        return "identhist"
     return {"H": "heights", "D": "delay", "K": "commit", "I": "ident", "IH": "identhist"}.get(re.match(r"[A-Z]+", tr).group(0))
 
 
@@ -498,11 +626,23 @@ def input_classes(sched):
     return cls
 
 
+def _listed(known, pid):
+    """Entries of /verif/known_findings.json for this property (passed in by bin/check).  For the family's self-test a
+    candidate file can be named in VERIF_FUNCSA_KNOWN (same format); it is never consulted otherwise."""
+    extra = os.environ.get("VERIF_FUNCSA_KNOWN")
+    out = list(known)
+    if extra and os.path.exists(extra):
+        for k in json.load(open(extra)).get("findings", []):
+            if k.get("property") == pid and k.get("status", "open") == "open" and k not in out:
+                out.append(k)
+    return out
+
+
 def match_known(fail, sched, known):
     if fail[2] != "C19":
         return None
     cls = input_classes(sched)
-    for k in known:
+    for k in _listed(known, "C19"):
         if k.get("family", FAMILY) == FAMILY and (k.get("signature") or {}).get("class") in cls:
             return k
     return None
@@ -532,7 +672,7 @@ def probe_known(pid, known, result):
     if pid != "C19":
         return []
     out = []
-    for k in known:
+    for k in _listed(known, "C19"):
         if k.get("family", FAMILY) != FAMILY:
             continue
         cls = (k.get("signature") or {}).get("class")
